@@ -59,9 +59,9 @@ TEXT = {
   "design_ref": "DESIGN.md 5 (C12)", "note": NODE_NOTE,
   "technique": 'Coq proofs of snapshot labelling + differential correspondence with controlled goroutine interleaving',
  }, "C17": {
-  "level": "Machine-checked proofs (Coq, no axioms): leader stickiness in full; the progress mechanisms one by one (election start, vote for up-to-date candidate, win at quorum, nextIndex convergence, match advance, single-voter commit, step-down on quorum loss). PARTIAL: 'within a bounded number of election time-outs' needs real time and fair scheduling, which no executable model expresses; the simulator's scenarios end in converged clusters.",
+  "level": "Machine-checked proofs (Coq, no axioms): leader stickiness in full; the progress mechanisms one by one (election start, vote for up-to-date candidate, win at quorum, nextIndex convergence, match advance, single-voter commit, step-down on quorum loss). On the abstract cluster protocol (Props/C17_abs.v, Abs/RaftLive.v): from every reachable state - whatever crashes, message loss, deposed leaders, snapshot installations came before - any majority of voters has a continuation in which one of them is elected in a fresh term and a new entry is committed durably on all of them (progress_possible: the protocol has no dead states). PARTIAL: 'within a bounded number of election time-outs' needs real time and fair scheduling, which no executable model expresses; the simulator's scenarios end in converged clusters.",
   "design_ref": "DESIGN.md 5 (C17)", "note": NODE_NOTE,
-  "technique": 'Coq proofs of stickiness and progress mechanisms + differential correspondence',
+  "technique": 'Coq proofs of stickiness, progress mechanisms and progress-possibility on the abstract protocol + differential correspondence',
  },
  "C06": {
   "level": "Machine-checked proofs (Coq, no axioms) of the node-level rules that make an acknowledged entry durable on a majority of voters: "
@@ -112,7 +112,9 @@ TEXT = {
            "tasks, snapshots and restarts): granted reply => term and vote persisted; every step keeps the term monotone and a cast vote fixed within "
            "its term; over any history one candidate per term, terms never decrease, reported terms never decrease; the handler as it was before the "
            "repair is refuted by a witness. Tied to the code by per-event differential execution (single node under adversarial requests with all "
-           "coordinates + simulated clusters).",
+           "coordinates + simulated clusters). Cluster-level tie (Props/AbsTie.v): in every whole-cluster history accepted by the proved-sound checker "
+           "Abs/Exec.v (crashes and restarts included) a node's observed term never decreases and a vote cast in a term stays "
+           "(observed_term_vote_monotone).",
   "design_ref": "DESIGN.md 5 (C05)",
   "note": NODE_NOTE,
   "technique": "Coq invariant proof over all node events + per-event differential correspondence with the real handlers",
